@@ -18,17 +18,6 @@ Fixpoint unhex (s : string) : bytes :=
   | _ => []
   end.
 
-(** short-circuit conjunction ([vm_compute] is strict: [a && b] would evaluate both) *)
-Notation "a &&& b" := (if a then b else false) (at level 40, left associativity).
-
-Definition header_eqb (a b : header) : bool :=
-  (h_nonce a =? h_nonce b) &&& (h_num a =? h_num b) &&& (h_time a =? h_time b) &&& (h_rev a =? h_rev b)
-  &&& beq (h_root a) (h_root b) &&& beq (h_extra a) (h_extra b) &&& beq (h_parent a) (h_parent b)
-  &&& (h_gaslimit a =? h_gaslimit b) &&& (h_gasused a =? h_gasused b) &&& beq (h_basefee a) (h_basefee b)
-  &&& beq (h_diff a) (h_diff b) &&& beq (h_uncle a) (h_uncle b) &&& beq (h_coinbase a) (h_coinbase b)
-  &&& beq (h_tx a) (h_tx b) &&& beq (h_receipt a) (h_receipt b) &&& beq (h_bloom a) (h_bloom b)
-  &&& beq (h_mix a) (h_mix b).
-
 Definition cstate_eqb (a b : cstate) : bool :=
   (c_time a =? c_time b) &&& (c_rev a =? c_rev b) &&& (c_num a =? c_num b) &&& beq (c_root a) (c_root b).
 
@@ -305,6 +294,7 @@ Definition main_chain_ok (t : table) (s : state) : bool :=
     same revision number as the head; no other stored header of that height with the same root *)
 Definition step_hyp (t : table) (s : state) (h : header) : nat :=
   if negb (h_rev h =? h_rev (head s)) then 2%nat
+  else if negb (noalias_b (t_hash t) s h) then 2%nat
   else if negb (fresh_root_b (t_hash t) s h) then 1%nat else 0%nat.
 
 (** Kinds (st = the step):
@@ -346,7 +336,9 @@ Fixpoint mon_steps (k : case) (i : nat) (pre : state) (hyp : nat) (l : list step
         else if valid && (h_rev h =? h_rev (head pre)) && active bt pre then
           match hyp with
           | O => if should_accept (t_hash t) (t_seal t) bt pre h then (i, 25%nat) :: next
-                 else if fresh_root_b (t_hash t) pre h then (i, 41%nat) :: next else (i, 43%nat) :: next
+                 else if negb (fresh_root_b (t_hash t) pre h) then (i, 43%nat) :: next
+                 else if negb (noalias_b (t_hash t) pre h) then (i, 44%nat) :: next
+                 else (i, 41%nat) :: next
           | 1%nat => (i, 43%nat) :: next
           | _ => (i, 44%nat) :: next
           end
